@@ -9,6 +9,8 @@ qubits `n` (not only powers of two) and every index.
 import OFV.Model.C05
 import OFV.Spec.C05
 import OFV.Proofs.C05Term
+import OFV.Proofs.C05Maj
+import OFV.Proofs.C05Srl
 
 namespace OFV.C05
 open OFV OFV.Spec OFV.Model OFV.Model.C05 OFV.Sem OFV.BK
@@ -100,6 +102,42 @@ theorem bk_exact (tol : Rat) (htol : tol * tol ≤ 1 / 4) (n : Nat) (A : Model.O
   simp only [Function.comp]
   rw [this, den_cons, den_nil, add_zero]
 
+/-- **BK of a Majorana term is exact** (`_transform_majorana_term`): for every `n` and every list of Majorana
+indices `m` with `m / 2 < n`: `⟨enc s'| bk(c·γ_{m1}…γ_{mk}) |enc s⟩ = ⟨s'| c·γ_{m1}…γ_{mk} |s⟩`. -/
+theorem bk_majorana_term_exact (n : Nat) (t : List Nat) (ht : ∀ m ∈ t, m / 2 < n) (c : GQ) (s s' : Nat) :
+    GV.coeff (applyOp .qubit (bkMajTerm n t c) [Spec.C05.enc .bk n s]) [Spec.C05.enc .bk n s']
+      = GV.coeff (applyOp .majorana [(t.map fun i => (i, 0), c)] [s]) [s'] := by
+  change den .qubit _ _ _ = den .majorana _ _ _
+  rw [bkMajTerm_den n t ht, den_cons, den_nil, add_zero, termCoef_majorana]
+  by_cases h : (actMTerm t s).2 = s'
+  · simp [h]
+  · have : ¬ Spec.C05.enc .bk n (actMTerm t s).2 = Spec.C05.enc .bk n s' := fun he => h (enc_injective n _ _ he)
+    simp [h, this]
+
+/-- **`bravyi_kitaev(MajoranaOperator, n)` is exact** on every exact run -/
+theorem bk_majorana_exact (tol : Rat) (n : Nat) (A : Model.MOp) (hA : ∀ tc ∈ A, ∀ m ∈ tc.1, m / 2 < n)
+    (hok : bkMajoranaOk tol n A = true) (s s' : Nat) :
+    GV.coeff (applyOp .qubit (bkMajorana tol n A) [Spec.C05.enc .bk n s]) [Spec.C05.enc .bk n s']
+      = GV.coeff (applyOp .majorana (A.map fun tc => (tc.1.map fun i => (i, 0), tc.2)) [s]) [s'] := by
+  change den .qubit _ _ _ = den .majorana _ _ _
+  have e : bkMajorana tol n A = (A.map fun tc => bkMajTerm n tc.1 tc.2).foldl (fun acc img => iadd tol acc img) [] := by
+    unfold bkMajorana; rw [List.foldl_map]
+  rw [e, den_sum_ok .qubit tol _ _ _ hok, den_eq_sum, List.map_map, List.map_map]
+  congr 1
+  apply List.map_congr_left
+  intro tc htc
+  have := bk_majorana_term_exact n tc.1 (hA tc htc) tc.2 s s'
+  change den .qubit _ _ _ = den .majorana _ _ _ at this
+  simp only [Function.comp]
+  rw [this, den_cons, den_nil, add_zero]
+
+/-- **the guards of `_seeley_richard_love` are exhaustive**: for every `i` and every `j < n` one of the
+cases 0-10 fires (the combination "`i` even, `j` odd, `i ∈ P(j)`, `j ∉ U(i)`" missing from the `elif`
+chain is impossible: an even `i` in `P(j)` forces `j = i + 1 ∈ U(i)`), so the function never returns
+the two empty lists it would return if no branch fired. -/
+theorem srl_cases_exhaustive (i j n : Nat) (coef : GQ) (hj : j < n) : (srl i j coef n).1 ≤ 10 :=
+  srlTag_le i j n hj
+
 /-! ### non-vacuity -/
 
 example : Generated.eqTolerance * Generated.eqTolerance ≤ 1 / 4 := by
@@ -112,5 +150,11 @@ example : ∀ f ∈ [(5, 1), (2, 0), (5, 0), (3, 1)], f.1 < 6 ∧ f.2 ≤ 1 := b
 example : bkFermionOk Generated.eqTolerance 5
     [([(4, 1), (1, 0)], ⟨2, 0⟩), ([(1, 0), (4, 1)], ⟨-(mkRat 1 2), 0⟩), ([(2, 1)], ⟨0, 1⟩)] = true := by
   decide +kernel
+
+/-- every case tag 0..10 is attained (kernel-evaluated on the Model) -/
+example : (((List.range 16).flatMap (fun i => (List.range 16).map fun j => srlTag i j 16)).eraseDups).length = 11 := by
+  decide +kernel
+
+example : ∀ m ∈ [11, 0, 3, 11, 4], m / 2 < 6 := by decide
 
 end OFV.C05
